@@ -56,18 +56,19 @@ func (s *tunnelServer) serve(tunnelMetadata metadata.MD) error {
 	verifServerStart(s)
 	defer verifServerEnd(s)
 	if s.clientAcceptsSettings {
-		go func() {
-			verifYield("srv.settings.emit", -1)
-			_ = s.stream.Send(&tunnelpb.ServerToClient{
-				StreamId: -1,
-				Frame: &tunnelpb.ServerToClient_Settings{
-					Settings: &tunnelpb.Settings{
-						InitialWindowSize:          initialWindowSize,
-						SupportedProtocolRevisions: s.tunnelOpts.supportedRevisions(),
-					},
+		// The settings frame must be the first frame this server sends: send it
+		// before reading (and possibly answering) anything from the client. It is
+		// the first message on a fresh stream, so this does not block.
+		verifYield("srv.settings.emit", -1)
+		_ = s.stream.Send(&tunnelpb.ServerToClient{
+			StreamId: -1,
+			Frame: &tunnelpb.ServerToClient_Settings{
+				Settings: &tunnelpb.Settings{
+					InitialWindowSize:          initialWindowSize,
+					SupportedProtocolRevisions: s.tunnelOpts.supportedRevisions(),
 				},
-			})
-		}()
+			},
+		})
 	}
 
 	ctx := context.WithValue(s.stream.Context(), tunnelMetadataIncomingContextKey{}, tunnelMetadata)
